@@ -92,3 +92,53 @@ def _method(spec, model):
                     if not sel and (lo < v < hi):
                         bad.append({'grid': len(p), 'limits': lim, 'problem': f'point {i} ({v}) inside the limits was not used'})
     return {'confirmed': bool(bad), 'observed': bad[:4], 'expected': 'generating parameters recovered; fitted region = points inside the limits'}
+
+
+def da_exponent_cases(seed, thorough=False):
+    """exact Dubinin-Astakhov data over grids, exponents, energies: da_plot_raw(exp=None) with the real minimiser returns
+    the generating exponent, volume and energy (bounded stand-in: the minimiser finds a local minimum only)"""
+    import random
+    import warnings
+    import pygaps
+    pygaps.logger.disabled = True
+    from pygaps.characterisation.dr_da_plots import da_plot_raw
+    from pygaps.utilities.exceptions import CalculationError
+    R, T, M, rho, V0 = 8.314462618, 77.355, 28.0134, 0.8076, 0.35
+    rnd = random.Random(seed)
+    for grid in ('lin', 'geo', 'rand'):
+        for n in ((5, 10, 30, 100) if thorough else (6, 40)):
+            if grid == 'lin':
+                p = numpy.linspace(0.001, 0.3, n)
+            elif grid == 'geo':
+                p = numpy.geomspace(1e-6, 0.1, n)
+            else:
+                p = numpy.sort(numpy.array([rnd.uniform(1e-5, 0.5) for _ in range(n)]))
+            for m in ((1.0, 1.05, 1.2, 1.5, 2.0, 2.5, 2.9, 3.0) if thorough else (1.0, 1.3, 2.0, 2.8)):
+                for E in ((3.0, 6.5, 12.0) if thorough else (4.0, 9.0)):
+                    A = R * T * numpy.log(1 / p)
+                    loading = V0 * numpy.exp(-(A / (E * 1000)) ** m) * rho / M
+                    name = f"da_exponent_recovered|grid={grid}|n={n}|m={m}|E={E}"
+                    try:
+                        with warnings.catch_warnings():
+                            warnings.simplefilter('ignore')
+                            r = da_plot_raw(p, loading, T, M, rho, None)
+                    except CalculationError:
+                        yield {'name': name, 'ok': True, 'detail': 'minimiser reported failure (no claim)'}
+                        continue
+                    ok = abs(r[2] - m) < 5e-3 and abs(r[0] - V0) < 2e-3 * V0 and abs(r[1] - E) < 2e-3 * E
+                    yield {'name': name, 'ok': bool(ok), 'detail': '' if ok else f"exponent {r[2]:.4f} volume {r[0]:.4f} energy {r[1]:.3f} (generated with {m}, {V0}, {E})"}
+
+
+@replayer('c14.da_exponent')
+def _da_exp(spec, model):
+    bad = [r for r in da_exponent_cases(0, thorough=True) if not r['ok']]
+    return {'confirmed': bool(bad), 'observed': [(b['name'], b['detail']) for b in bad[:3]], 'expected': 'generating exponent, volume and energy'}
+
+
+@replayer('c14.da_case')
+def _da_case(spec, model):
+    for th in (False, True):
+        for r in da_exponent_cases(spec.get('seed', 0), thorough=th):
+            if r['name'] == spec['name']:
+                return {'confirmed': not r['ok'], 'observed': r['detail']}
+    return {'confirmed': False, 'error': 'case not found'}
